@@ -195,6 +195,25 @@ def public(state):
     return {k: d.get(k) for k in PUBLIC_GETTERS}
 
 
+def expander_fonts():
+    """fonts whose GSUB multiplies one glyph beyond the output length limit (two chained MultipleSubst lookups 1 -> k copies)"""
+    import fontbuild, vlib as _v
+    d = os.path.join(_v.HARN, "target", "c05fonts")
+    os.makedirs(d, exist_ok=True)
+    out = []
+    for k in (130, 200):
+        rec = {"num_glyphs": 3, "cmap": {0x61: 1, 0x62: 2}, "advances": [500, 600, 700],
+               "gsub": {"features": [{"tag": "liga", "lookups": [0, 1]}],
+                        "lookups": [{"type": 2, "flag": 0, "subtables": [{"coverage": [1], "sequences": [[1] * k]}]},
+                                    {"type": 2, "flag": 0, "subtables": [{"coverage": [1], "sequences": [[1] * k]}]}]}}
+        data = fontbuild.build(rec)
+        p = os.path.join(d, f"expander-{k}.ttf")
+        if not os.path.exists(p) or open(p, "rb").read() != data:
+            open(p, "wb").write(data)
+        out.append(p)
+    return out
+
+
 def recycle_search(ctx, shim, r, n):
     """request shaped through a recycled buffer (after an arbitrary earlier use) vs through a fresh buffer"""
     T, D, canon = unicode_tables(shim)
@@ -204,6 +223,13 @@ def recycle_search(ctx, shim, r, n):
     # permanent seed: the D9 scenario through the public api
     cases.append((fonts[0], ["shape -"], ["pushn 61 20000", "flags 0", "level 0"], "shape -"))
     cases.append((fonts[0], ["plan -"], ["pushn 61 20000", "flags 0", "level 0"], "plan -"))
+    # histories that leave a LARGE ALLOCATION behind (clear() keeps the Vec capacity) followed by requests that hit the
+    # length limit max(64 n, 16384) on an expanding font: capacity must not be state the next shaping can see
+    for xf in expander_fonts():
+        for big in (20000, 50000):
+            for txt in ("61", "61,61", "62,61,62"):
+                for fin in ("shape -", "plan -"):
+                    cases.append((xf, [f"pushn 62 {big}", "flags 0", "shape -"], [f"push {txt}", "flags 0", "level 0"], fin))
     for _ in range(n):
         f = r.choice(fonts)
         hist = history_ops(r, scripts, r.range(1, 8))
